@@ -540,4 +540,198 @@ example : ∃ tape d', singletonAuto { q := [5, 6, 7], last := some 4 } ⟨tape,
     = some (true, { q := [7], rel := some (6, true), last := some 4, skipped := [5] }, d') :=
   singleton_every_version_reachable { q := [5, 6, 7], last := some 4 } false [] 1 6 rfl
 
+
+/-! ### the `min_index` pruning explores every subset exactly once -/
+
+theorem aux_natEx_log {d d' : Drv} {lo hi v : Nat} (h : d.natEx lo hi = some (v, d')) :
+    d'.log = .u lo (hi - 1) v :: d.log := by
+  unfold Drv.natEx at h
+  split at h
+  · simp at h
+  · unfold Drv.nat at h
+    split at h
+    · simp at h
+    · simp only [Option.some.injEq, Prod.mk.injEq] at h
+      obtain ⟨rfl, rfl⟩ := h; rfl
+
+/-- one round of the `StreamHook<NoOrder>` loop on a non-empty queue: it stops, or picks `idx ≥ min_index` -/
+theorem aux_streamNo_step {n : Nat} {force : Bool} {q out : List α} {mi : Nat} {d : Drv}
+    {o q' : List α} {d' : Drv} (hq : q.isEmpty = false)
+    (h : streamNoLoop (n + 1) force q out mi d = some (o, q', d')) :
+    (o = out ∧ q' = q ∧ (force && out.isEmpty) = false ∧ d'.log = .b true :: d.log) ∨
+    (∃ idx item d2, q[idx]? = some item ∧
+      d2.log = .u mi (q.length - 1) idx :: (if (force && out.isEmpty) = true then d.log else .b false :: d.log) ∧
+      (if (idx == (q.eraseIdx idx).length) = true then (o, q', d') = (out ++ [item], q.eraseIdx idx, d2)
+       else streamNoLoop n force (q.eraseIdx idx) (out ++ [item]) idx d2 = some (o, q', d'))) := by
+  unfold streamNoLoop at h
+  simp only [hq, Bool.false_eq_true, ↓reduceIte] at h
+  cases hm : (force && out.isEmpty) with
+  | true =>
+    simp only [hm, Bool.not_true, aux_boolIf_false, Bool.false_eq_true, ↓reduceIte] at h
+    right
+    split at h
+    · simp at h
+    · rename_i idx d2 hidx
+      split at h
+      · simp at h
+      · rename_i item hitem
+        refine ⟨idx, item, d2, hitem, by simp [aux_natEx_log hidx], ?_⟩
+        split at h
+        · rename_i hc
+          simp only [Option.some.injEq] at h
+          simp [hc, h.symm]
+        · rename_i hc
+          simp [hc, h]
+  | false =>
+    simp only [hm, Bool.not_false] at h
+    have hb : d.boolIf true = (d.bool.1, d.bool.2) := rfl
+    rw [hb] at h
+    simp only at h
+    cases hv : d.bool.1 with
+    | true =>
+      simp only [hv, ↓reduceIte, Option.some.injEq, Prod.mk.injEq] at h
+      obtain ⟨rfl, rfl, rfl⟩ := h
+      left
+      refine ⟨rfl, rfl, rfl, ?_⟩
+      simp [Drv.bool] at hv ⊢
+      exact hv
+    | false =>
+      simp only [hv, Bool.false_eq_true, ↓reduceIte] at h
+      right
+      have hlog : d.bool.2.log = .b false :: d.log := by
+        simp [Drv.bool] at hv ⊢; exact hv
+      split at h
+      · simp at h
+      · rename_i idx d2 hidx
+        split at h
+        · simp at h
+        · rename_i item hitem
+          refine ⟨idx, item, d2, hitem, by simp [aux_natEx_log hidx, hlog], ?_⟩
+          split at h
+          · rename_i hc
+            simp only [Option.some.injEq] at h
+            simp [hc, h.symm]
+          · rename_i hc
+            simp [hc, h]
+
+theorem aux_getElem?_inj {q : List α} (hnd : q.Nodup) {i j : Nat} {x : α}
+    (hi : q[i]? = some x) (hj : q[j]? = some x) : i = j := by
+  have hil : i < q.length := by
+    rcases Nat.lt_or_ge i q.length with h | h
+    · exact h
+    · simp [List.getElem?_eq_none h] at hi
+  have hjl : j < q.length := by
+    rcases Nat.lt_or_ge j q.length with h | h
+    · exact h
+    · simp [List.getElem?_eq_none h] at hj
+  rw [List.getElem?_eq_getElem hil] at hi
+  rw [List.getElem?_eq_getElem hjl] at hj
+  simp only [Option.some.injEq] at hi hj
+  exact (List.getElem_inj hnd).mp (hi.trans hj.symm)
+
+theorem aux_streamNoLoop_unique : ∀ (fuel : Nat) (force : Bool) (q out : List α) (mi : Nat) (da db : Drv)
+    {o qa qb : List α} {da' db' : Drv}, q.Nodup → mi ≤ q.length → da.log = db.log →
+    streamNoLoop fuel force q out mi da = some (o, qa, da') →
+    streamNoLoop fuel force q out mi db = some (o, qb, db') →
+    da'.log = db'.log ∧ qa = qb := by
+  intro fuel
+  induction fuel with
+  | zero =>
+    intro force q out mi da db o qa qb da' db' _ _ hl ha hb
+    simp only [streamNoLoop, Option.some.injEq, Prod.mk.injEq] at ha hb
+    obtain ⟨_, rfl, rfl⟩ := ha
+    obtain ⟨_, rfl, rfl⟩ := hb
+    exact ⟨hl, rfl⟩
+  | succ n ih =>
+    intro force q out mi da db o qa qb da' db' hnd hmi hl ha hb
+    by_cases hq : q.isEmpty = true
+    · unfold streamNoLoop at ha hb
+      simp only [hq, ↓reduceIte, Option.some.injEq, Prod.mk.injEq] at ha hb
+      obtain ⟨_, rfl, rfl⟩ := ha
+      obtain ⟨_, rfl, rfl⟩ := hb
+      exact ⟨hl, rfl⟩
+    · have hq' : q.isEmpty = false := by simpa using hq
+      -- what the result says about the released items
+      have grow : ∀ {d : Drv} {idx : Nat} {item : α} {d2 : Drv} {q' : List α} {d' : Drv},
+          q[idx]? = some item →
+          (if (idx == (q.eraseIdx idx).length) = true then (o, q', d') = (out ++ [item], q.eraseIdx idx, d2)
+           else streamNoLoop n force (q.eraseIdx idx) (out ++ [item]) idx d2 = some (o, q', d')) →
+          ∃ sel, o = out ++ item :: sel := by
+        intro d idx item d2 q' d' hitem hres
+        split at hres
+        · simp only [Prod.mk.injEq] at hres
+          exact ⟨[], by simp [hres.1]⟩
+        · rename_i hc
+          have hlt : idx < q.length := by
+            rcases Nat.lt_or_ge idx q.length with h | h
+            · exact h
+            · simp [List.getElem?_eq_none h] at hitem
+          have hle : idx ≤ (q.eraseIdx idx).length := by
+            rw [List.length_eraseIdx]; simp [hlt]; omega
+          obtain ⟨sel, rem, h1, _, _⟩ := aux_streamNoLoop _ _ _ _ _ _ hle hres
+          exact ⟨sel, by simp [h1]⟩
+      rcases aux_streamNo_step hq' ha with ⟨ha1, ha2, ham, hal⟩ | ⟨ia, xa, da2, hxa, hla, hra⟩
+      · rcases aux_streamNo_step hq' hb with ⟨hb1, hb2, hbm, hbl⟩ | ⟨ib, xb, db2, hxb, hlb, hrb⟩
+        · exact ⟨by rw [hal, hbl, hl], by rw [ha2, hb2]⟩
+        · obtain ⟨sel, hsel⟩ := grow (d := db) hxb hrb
+          rw [ha1] at hsel
+          have := congrArg List.length hsel
+          simp at this
+      · rcases aux_streamNo_step hq' hb with ⟨hb1, hb2, hbm, hbl⟩ | ⟨ib, xb, db2, hxb, hlb, hrb⟩
+        · obtain ⟨sel, hsel⟩ := grow (d := da) hxa hra
+          rw [hb1] at hsel
+          have := congrArg List.length hsel
+          simp at this
+        · obtain ⟨sa, hsa⟩ := grow (d := da) hxa hra
+          obtain ⟨sb, hsb⟩ := grow (d := db) hxb hrb
+          have hx : xa = xb := by
+            rw [hsa] at hsb
+            have := List.append_cancel_left hsb
+            simp only [List.cons.injEq] at this
+            exact this.1
+          subst hx
+          have hi : ia = ib := aux_getElem?_inj hnd hxa hxb
+          subst hi
+          have hl2 : da2.log = db2.log := by rw [hla, hlb, hl]
+          split at hra
+          · rename_i hc
+            simp only [hc, ↓reduceIte, Prod.mk.injEq] at hra hrb
+            obtain ⟨_, rfl, rfl⟩ := hra
+            obtain ⟨_, rfl, rfl⟩ := hrb
+            exact ⟨hl2, rfl⟩
+          · rename_i hc
+            simp only [hc, Bool.false_eq_true, ↓reduceIte] at hrb
+            have hlt : ia < q.length := by
+              rcases Nat.lt_or_ge ia q.length with h | h
+              · exact h
+              · simp [List.getElem?_eq_none h] at hxa
+            have hle : ia ≤ (q.eraseIdx ia).length := by
+              rw [List.length_eraseIdx]; simp [hlt]; omega
+            exact ih force _ _ _ da2 db2 (hnd.sublist (List.eraseIdx_sublist ..)) hle hl2 hra hrb
+
+/-- Together with `streamNo_every_split_reachable`: on a queue of distinct items, a released batch
+determines the whole sequence of driver calls (ranges and answers) that produced it and the remaining
+queue — every in-order sub-multiset is reached by exactly one pick sequence, so the exhaustive search
+visits each subset once. -/
+theorem noOrder_pick_sequence_unique {q r qa qb : List α} {force nta ntb : Bool} {ta tb : List Nat} {da db : Drv}
+    (hnd : q.Nodup)
+    (ha : streamNoAuto q ⟨ta, []⟩ force = some (r, qa, nta, da))
+    (hb : streamNoAuto q ⟨tb, []⟩ force = some (r, qb, ntb, db)) :
+    da.log = db.log ∧ qa = qb := by
+  unfold streamNoAuto at ha hb
+  split at ha
+  · simp at ha
+  · rename_i hla
+    split at hb
+    · simp at hb
+    · rename_i hlb
+      simp only [Option.some.injEq, Prod.mk.injEq] at ha hb
+      obtain ⟨rfl, rfl, _, rfl⟩ := ha
+      obtain ⟨rfl, rfl, _, rfl⟩ := hb
+      exact aux_streamNoLoop_unique _ _ _ _ _ ⟨ta, []⟩ ⟨tb, []⟩ hnd (Nat.zero_le _) rfl hla hlb
+
+
+example : (streamNoAuto [10, 20, 30] ⟨[0, 1, 1], []⟩ false).map (·.1) = some [20] ∧
+    (streamNoAuto [10, 20, 30] ⟨[2, 4, 3], []⟩ false).map (·.1) = some [20] := by decide
+
 end HvSim
